@@ -17,11 +17,12 @@ ASSUMPTIONS = ["<= 6 startpoints, <= 14 gates", "no 'x' constants"]
 def gen(rng, tier):
     op = rng.choices(("limit_fanin", "limit_fanout", "insert_registers", "acyclic_unroll"), weights=[4, 3, 2, 2])[0]
     k = rng.randint(2, 5)
+    big = tier == "thorough" and rng.random() < 0.3
     if op == "limit_fanin":
-        net = G.gen_net(rng, n_inputs=(2, 6), n_gates=(1, 10), types=G.swarm_types(rng), max_arity=7,
+        net = G.gen_net(rng, n_inputs=(4, 8) if big else (2, 6), n_gates=(8, 16) if big else (1, 10), types=G.swarm_types(rng), max_arity=8 if big else 7,
                         constants=0.25, bbs=rng.choice((0, 0, 1)), parity_bias=rng.choice((0.0, 0.5)))
     elif op == "limit_fanout":
-        net = G.gen_net(rng, n_inputs=(1, 3), n_gates=(3, 14), types=G.swarm_types(rng), max_arity=3,
+        net = G.gen_net(rng, n_inputs=(1, 4) if big else (1, 3), n_gates=(10, 22) if big else (3, 14), types=G.swarm_types(rng), max_arity=3,
                         constants=0.2, bbs=rng.choice((0, 0, 1)))
     elif op == "insert_registers":
         net = G.gen_net(rng, n_inputs=(1, 4), n_gates=(2, 12), types=G.swarm_types(rng), max_arity=3, constants=0.2)
